@@ -80,6 +80,10 @@ func main() {
 		os.Exit(1)
 	}
 
+	if len(os.Args[1]) > 3 && os.Args[1][3:] == "tracereal" {
+		parts[os.Args[1]] = part{os.Args[1][:3], tracechk.APITraces(tracechk.RealEnv())}
+	}
+
 	p, ok := parts[os.Args[1]]
 	if !ok {
 		fmt.Fprintln(os.Stderr, "unknown part", os.Args[1])
